@@ -104,9 +104,18 @@ func TestC09Render(t *testing.T) {
 			case "Validating", "Mutating":
 				bc.Metadata.BindingType = map[string]htypes.BindingType{"Validating": htypes.KubernetesValidating, "Mutating": htypes.KubernetesMutating}[k]
 				bc.AdmissionReview = &admissionv1.AdmissionReview{Request: &admissionv1.AdmissionRequest{UID: "uid-1", Name: "p"}}
+				if rng.IntN(3) == 0 {
+					// `group` on an admission binding only selects snapshots: the context stays a Validating/Mutating one
+					bc.Metadata.Group = "grp"
+					snap = true
+				}
 			case "Conversion":
 				bc.Metadata.BindingType = htypes.KubernetesConversion
 				bc.FromVersion, bc.ToVersion = "v1", "example.com/v2"
+				if rng.IntN(3) == 0 {
+					bc.Metadata.Group = "grp" // as above: only selects snapshots
+					snap = true
+				}
 				bc.ConversionReview = &apixv1.ConversionReview{Request: &apixv1.ConversionRequest{UID: "uid-2", DesiredAPIVersion: "example.com/v2", Objects: []runtime.RawExtension{{Raw: []byte(`{"apiVersion":"v1","kind":"X"}`)}}}}
 			}
 			if version == "v0" {
